@@ -1,0 +1,4 @@
+// Package verifshim re-exports, for the external verification harness, the
+// pieces of the internal packages that Go's internal/ rule hides. Everything
+// except this file is guarded by the build tag "verif".
+package verifshim
